@@ -14,7 +14,8 @@ RULE = (
     "Hypothesis-generated elections (1-3 states, counties, classifications, optional districts; feed with units "
     "at/above/below/exactly on the threshold, absent units, zero-baseline, unit- and state-blocklisted, strange "
     "turnout factor, unexpected rows in known/unknown counties and districts; both unreporting policies; any "
-    "ordered aggregate list; three estimators) run through ModelClient.get_estimates and compared with a "
+    "ordered aggregate list; three estimators; county- and precinct-level unit ids; for the conformal estimators also "
+    "feed rows whose count for one estimand is missing) run through ModelClient.get_estimates and compared with a "
     "reference categorisation + aggregation computed from the case. Non-trivial: run completed, units in >=3 of "
     "{reporting, nonreporting, unexpected, non-modelled, absent} and >=2 requested levels; distinct = hash of "
     "(estimator, office, aggregates, policy, threshold, per-county category multiset)."
